@@ -781,6 +781,13 @@ class PDFPageInterpreter:
                 raise PDFInterpreterError("No colorspace specified!")
             n = 1
 
+        if n in (1, 3, 4) and len(self.argstack) < n:
+            log.warning(
+                f"Cannot set stroke color because {n} operands are needed but only {len(self.argstack)} are given"
+            )
+            self.pop(n)
+            return
+
         if n == 1:
             gray = self.pop(1)[0]
             gray_f = safe_float(gray)
@@ -825,6 +832,13 @@ class PDFPageInterpreter:
             if settings.STRICT:
                 raise PDFInterpreterError("No colorspace specified!")
             n = 1
+
+        if n in (1, 3, 4) and len(self.argstack) < n:
+            log.warning(
+                f"Cannot set non-stroke color because {n} operands are needed but only {len(self.argstack)} are given"
+            )
+            self.pop(n)
+            return
 
         if n == 1:
             gray = self.pop(1)[0]
@@ -1118,6 +1132,9 @@ class PDFPageInterpreter:
         if self.textstate.font is None:
             if settings.STRICT:
                 raise PDFInterpreterError("No font specified!")
+            return
+        if not isinstance(seq, list):
+            log.warning(f"Cannot show text because {seq!r} is not an array")
             return
         assert self.ncs is not None
         self.device.render_string(
